@@ -28,6 +28,10 @@ def check(ctx):
     from . import c03
     with ctx.only(lambda k: k.startswith("comparator-coverage/") or k.startswith("comparator-length/") or k.startswith("comparator-arm/") or k.startswith("ground/")):
         c03.comparator(ctx, "C17.5")       # incl. the ways of answering `equal` without comparing: a one-sided visited set makes equal(a, b) != equal(b, a)
+    # shape groups per path: every entry compared with the kept representatives through the comparator with a FRESH state (a memo shared
+    # between comparisons makes the groups depend on the order in which entries are met)
+    with ctx.only(lambda k: k in ("grouping", "grouping-key")):
+        c03.grouping(ctx)
     # recursive derives: what a type receives must not depend on which roots were visited before it (entry order): the reachable set is per root
     from . import c08
     with ctx.only(lambda k: k in ("flatten/reachable-set", "flatten/per-entry")):
